@@ -31,7 +31,7 @@ def setup(repo_dir):
     return _G["repo"], _G["reg"]
 
 
-def run_unit(job):
+def run_unit(job, progress=None):
     """Worker: verify one unit and solve its obligations. Returns a picklable dict."""
     kind, name, repo_dir, timeout_ms, known = job[:5]
     inst = job[5] if len(job) > 5 else None
@@ -44,6 +44,8 @@ def run_unit(job):
                        inlined=res.inlined, node_kinds=res.node_kinds, vacuity=res.vacuity, src=res.src,
                        obligations=[], gen_time=res.time, fingerprint=getattr(res, "fingerprint", None))
             axioms = res.ex.global_axioms if hasattr(res, "ex") else []
+            if progress is not None:
+                progress(len(res.obligations))
             c = reg.get(name)
             solve_all(res.obligations, timeout_ms, axioms, known, out, c.replay if c else None, getattr(res, "env", None))
         elif kind == "lemma":
@@ -134,6 +136,19 @@ def solve_all(obs, timeout_ms, axioms, known, out, replay_key, env):
         for r in list(running):
             if now > running[r][2]:
                 finish(r, False)
+    # second chance: a handful of `unknown` answers are asked again with three times the budget (load on the machine
+    # must not flip a verdict); more than a handful means the unit really does not verify and is left as it is
+    unk = [k for k, r in enumerate(recs) if r["verdict"] == "unknown"]
+    if 0 < len(unk) <= 4 and not os.environ.get("PYVC_NO_SECOND_CHANCE") and timeout_ms < 30000:
+        sub = dict(obligations=[])
+        os.environ["PYVC_NO_SECOND_CHANCE"] = "1"
+        try:
+            solve_all([obs[k] for k in unk], timeout_ms * 3, axioms, known, sub, replay_key, env)
+        finally:
+            del os.environ["PYVC_NO_SECOND_CHANCE"]
+        for k, r in zip(unk, sub["obligations"]):
+            if r["verdict"] != "unknown":
+                recs[k] = r
     out["obligations"].extend(recs)
 
 
